@@ -3,6 +3,7 @@ C14 — load collectives and histograms account for every cycle exactly once.
 Property theorems about `Model/Collective.lean` over ℝ.
 -/
 import Proofs.Lemmas.Collective
+import Proofs.Lemmas.CollectiveCount
 
 namespace PylifeVerif.C14
 open PylifeVerif.Collective
@@ -217,32 +218,74 @@ example : ∀ r ∈ ([⟨0, 2, 1⟩, ⟨1, 2, 3⟩] : List (Row ℝ)),
   simp at hr
   rcases hr with rfl | rfl <;> simp [meanstress] <;> norm_num
 
+/-! ## 3b. Bin specification "count": numpy's automatic edges -/
+
+/-- `range_histogram(n)` with an integer class count `n ≥ 1` (numpy rejects `n = 0`): the automatic edges
+`linspace(min, max, n + 1)` (`min = max` widened by ±0.5) cover every range, so every cycle is in a class:
+the class contents sum to ALL cycles. -/
+theorem count_histogram_partition (rows : List (Row ℝ)) (n : Nat) (hn : 0 < n) :
+    total (rangeHistogram (autoEdges (rows.map rangeOf) n) rows) = (rows.map (·.cyc)).sum :=
+  rangeHistogram_count_total rows n hn
+
+example : autoEdges ([1, 3] : List ℝ) 2 = [1, 2, 3] ∧ 0 < 2 := by
+  refine ⟨?_, by norm_num⟩
+  simp [autoEdges, minL, maxL, linspace, natTo, List.range, List.range.loop]
+  norm_num
+
+/-- The same for `histogram(n)` (range × mean, automatic edges per axis). -/
+theorem count_histogram2d_partition (rows : List (Row ℝ)) (n : Nat) (hn : 0 < n) :
+    total ((rangeMeanHistogram (autoEdges (rows.map rangeOf) n) (autoEdges (rows.map meanstress) n) rows).map total) =
+      (rows.map (·.cyc)).sum :=
+  rangeMeanHistogram_count_total rows n hn
+
+/-- …and for the recorder's `histogram([nx, ny])` (from × to). -/
+theorem count_fromto_histogram_partition (rows : List (Row ℝ)) (nx ny : Nat) (hx : 0 < nx) (hy : 0 < ny) :
+    total ((fromToHistogram (autoEdges (rows.map (·.fr)) nx) (autoEdges (rows.map (·.to)) ny) rows).map total) =
+      (rows.map (·.cyc)).sum :=
+  fromToHistogram_count_total rows nx ny hx hy
+
+example : (0 : Nat) < 3 ∧ (0 : Nat) < 1 := by decide
+
 /-! ## 4. Re-binning -/
 
-/-- Re-binning to a gap-free binning (weakly increasing breaks `b₀ … bₙ`) that covers every source class
-conserves the total.  Source classes must have positive width (the code silently drops the content of a
-zero-width class: `rebin_zero_width_class_lost`). -/
-theorem rebin_conserves_total (src : List (Bin ℝ)) (b0 : ℝ) (rest : List ℝ) (hm : Mono (b0 :: rest))
-    (hpos : ∀ s ∈ src, s.l < s.r)
+/-- Re-binning to a gap-free binning (weakly increasing breaks `b₀ … bₙ`, n ≥ 1) that covers every source class
+conserves the total - source classes of zero width included (a zero-width class is a point mass at its right
+bound and goes, undivided, to the one target class that numpy's bin rule puts the point in).
+Guard `s.l ≤ s.r`: pandas' `IntervalIndex` rejects `left > right`.  Guard `rest ≠ []`: a binning needs one class. -/
+theorem rebin_conserves_total (src : List (Bin ℝ)) (b0 : ℝ) (rest : List ℝ) (hne : rest ≠ []) (hm : Mono (b0 :: rest))
+    (hval : ∀ s ∈ src, s.l ≤ s.r)
     (hcov : ∀ s ∈ src, b0 ≤ s.l ∧ s.r ≤ (b0 :: rest).getLast (List.cons_ne_nil _ _)) :
-    total (rebin src (b0 :: rest)) = binTotal src := by
-  rw [total_rebin, binTotal, total_eq_sum]
-  congr 1
-  apply List.map_congr_left
-  intro s hs
-  rw [kap_sum s.l s.r b0 rest hm (hpos s hs) (hcov s hs).1 (hcov s hs).2]; ring
+    total (rebin src (b0 :: rest)) = binTotal src :=
+  total_rebin_cover src b0 rest hne hm hval hcov
 
-example : Mono ([0, 1.5, 4] : List ℝ) ∧ ∀ s ∈ ([⟨0, 1, 10⟩, ⟨1, 4, 5⟩] : List (Bin ℝ)), s.l < s.r := by
-  refine ⟨?_, ?_⟩
+example : ([1.5, 4] : List ℝ) ≠ [] ∧ Mono ([0, 1.5, 4] : List ℝ) ∧
+    (∀ s ∈ ([⟨0, 1, 10⟩, ⟨1, 1, 2⟩, ⟨1, 4, 5⟩] : List (Bin ℝ)), s.l ≤ s.r) ∧
+    (∀ s ∈ ([⟨0, 1, 10⟩, ⟨1, 1, 2⟩, ⟨1, 4, 5⟩] : List (Bin ℝ)),
+      (0:ℝ) ≤ s.l ∧ s.r ≤ ([0, 1.5, 4] : List ℝ).getLast (List.cons_ne_nil _ _)) := by
+  refine ⟨by simp, ?_, ?_, ?_⟩
   · unfold Mono Mono Mono; norm_num
-  · intro s hs; simp at hs; rcases hs with rfl | rfl <;> norm_num
+  · intro s hs; simp at hs; rcases hs with rfl | rfl | rfl <;> norm_num
+  · intro s hs; simp at hs; rcases hs with rfl | rfl | rfl <;> norm_num
 
-/-- The guard of `rebin_conserves_total` is needed: a zero-width source class is lost. -/
-theorem rebin_zero_width_class_lost :
-    total (rebin ([⟨1, 1, 5⟩] : List (Bin ℝ)) [0, 2]) = 0 ∧ binTotal ([⟨1, 1, 5⟩] : List (Bin ℝ)) = 5 := by
-  constructor
-  · simp [rebin, pairs, aggregate, share, total, minA, maxA]
-  · simp [binTotal, total]
+/-- The zero-width branch, explicitly: no quotient is formed; the class gives everything to the target class that
+holds its point (and nothing to every other class). -/
+theorem rebin_zero_width_class (c : ℝ × ℝ × Bool) (s : Bin ℝ) (h : s.l = s.r) :
+    shareC c s = if inBin c.1 c.2.1 c.2.2 s.r = true then s.v else 0 := by
+  unfold shareC
+  rw [if_neg (by rw [h]; exact lt_irrefl _), lit_zero]
+
+example : (⟨1, 1, 5⟩ : Bin ℝ).l = (⟨1, 1, 5⟩ : Bin ℝ).r ∧ shareC (0, 2, true) (⟨1, 1, 5⟩ : Bin ℝ) = 5 := by
+  refine ⟨rfl, ?_⟩
+  rw [rebin_zero_width_class _ _ rfl]
+  simp [inBin]
+
+/-- The witness of the former defect (`range_histogram([0, 1, 1])` of three cycles, re-binned): nothing is lost. -/
+theorem rebin_zero_width_class_kept :
+    rebin ([⟨0, 1, 1⟩, ⟨1, 1, 2⟩] : List (Bin ℝ)) [0, 2] = [3] ∧
+    rebin ([⟨0, 1, 1⟩, ⟨1, 1, 2⟩] : List (Bin ℝ)) [0, 1, 2] = [1, 2] ∧
+    rebin ([⟨0, 1, 1⟩, ⟨1, 1, 2⟩] : List (Bin ℝ)) [0, 1, 1] = [1, 2] := by
+  refine ⟨?_, ?_, ?_⟩ <;>
+    (simp [rebin, classes, aggregate, shareC, share, inBin, total, minA, maxA]; try norm_num)
 
 /-- Re-binning to the histogram's own (strictly increasing) binning is the identity. -/
 theorem rebin_same_binning_id (breaks vals : List ℝ) (hs : SMono breaks) (hlen : vals.length = (pairs breaks).length) :
@@ -252,34 +295,77 @@ theorem rebin_same_binning_id (breaks vals : List ℝ) (hs : SMono breaks) (hlen
 example : SMono ([0, 1, 3] : List ℝ) ∧ ([10, 20] : List ℝ).length = (pairs ([0, 1, 3] : List ℝ)).length := by
   refine ⟨?_, by simp [pairs]⟩; unfold SMono SMono SMono; norm_num
 
+/-- …also for the shape numpy produces when the last edge is repeated: a zero-width LAST class `(bₙ, bₙ]` holding `v`. -/
+theorem rebin_same_binning_id_point_last (breaks vals : List ℝ) (v : ℝ) (hs : SMono breaks) (hne : breaks ≠ [])
+    (hlen : vals.length = (pairs breaks).length) :
+    rebin (binsOf (breaks ++ [breaks.getLast hne]) (vals ++ [v])) (breaks ++ [breaks.getLast hne]) = vals ++ [v] :=
+  rebin_self_point_last breaks vals v hs hne hlen
+
+example : rebin (binsOf ([0, 1] ++ [([0, 1] : List ℝ).getLast (by simp)]) ([1] ++ [2])) ([0, 1] ++ [([0, 1] : List ℝ).getLast (by simp)])
+    = ([1] ++ [2] : List ℝ) :=
+  rebin_same_binning_id_point_last [0, 1] [1] 2 (by unfold SMono SMono; norm_num) (by simp) (by simp [pairs])
+
 /-- The literal reading "A→B→C = A→C for every intermediate binning B" is false:
 A = (0,1]:10, (1,2]:0;  B = (0,2];  C = A's binning.  A→B→C = [5, 5], A→C = [10, 0]. -/
 theorem rebin_compose_literal_false :
     rebin (rebinBins ([⟨0, 1, 10⟩, ⟨1, 2, 0⟩] : List (Bin ℝ)) [0, 2]) [0, 1, 2] = [5, 5] ∧
     rebin ([⟨0, 1, 10⟩, ⟨1, 2, 0⟩] : List (Bin ℝ)) [0, 1, 2] = [10, 0] := by
   constructor <;>
-    (simp [rebin, rebinBins, pairs, aggregate, share, total, minA, maxA]; try norm_num)
+    (simp [rebin, rebinBins, classes, aggregate, shareC, share, total, minA, maxA]; try norm_num)
 
 /-- Composition conserves the total: A→B→C has A's total when B covers A and C covers B
-(B strictly increasing so that its classes have positive width). -/
+(B strictly increasing so that its classes have positive width; A may contain zero-width classes). -/
 theorem rebin_compose_conserves_total (src : List (Bin ℝ)) (b0 c0 : ℝ) (brest crest : List ℝ)
-    (hb : SMono (b0 :: brest)) (hc : Mono (c0 :: crest)) (hpos : ∀ s ∈ src, s.l < s.r)
+    (hbne : brest ≠ []) (hcne : crest ≠ [])
+    (hb : SMono (b0 :: brest)) (hc : Mono (c0 :: crest)) (hval : ∀ s ∈ src, s.l ≤ s.r)
     (hcovB : ∀ s ∈ src, b0 ≤ s.l ∧ s.r ≤ (b0 :: brest).getLast (List.cons_ne_nil _ _))
     (hcovC : c0 ≤ b0 ∧ (b0 :: brest).getLast (List.cons_ne_nil _ _) ≤ (c0 :: crest).getLast (List.cons_ne_nil _ _)) :
     total (rebin (rebinBins src (b0 :: brest)) (c0 :: crest)) = binTotal src := by
-  rw [rebin_conserves_total _ c0 crest hc]
-  · rw [← rebin_conserves_total src b0 brest hb.mono hpos hcovB]
-    unfold binTotal rebinBins rebin
-    rw [List.map_map]; rfl
+  rw [rebin_conserves_total _ c0 crest hcne hc]
+  · rw [binTotal_rebinBins]
+    exact rebin_conserves_total src b0 brest hbne hb.mono hval hcovB
   · intro s hs
-    unfold rebinBins at hs
-    obtain ⟨p, hp, rfl⟩ := List.mem_map.mp hs
-    exact pairs_strict _ hb p hp
+    exact le_of_lt (rebinBins_pos src _ hb s hs)
   · intro s hs
-    unfold rebinBins at hs
-    obtain ⟨p, hp, rfl⟩ := List.mem_map.mp hs
-    obtain ⟨h1, _, h3⟩ := pairs_bounds b0 brest hb.mono p hp
+    obtain ⟨h1, _, h3⟩ := rebinBins_bounds src b0 brest hb.mono s hs
     exact ⟨le_trans hcovC.1 h1, le_trans h3 hcovC.2⟩
+
+example : ([1, 2] : List ℝ) ≠ [] ∧ ([3] : List ℝ) ≠ [] ∧ SMono ([0, 1, 2] : List ℝ) ∧ Mono ([0, 3] : List ℝ) ∧
+    (∀ s ∈ ([⟨0, 1, 1⟩, ⟨1, 1, 2⟩] : List (Bin ℝ)), s.l ≤ s.r) ∧
+    (∀ s ∈ ([⟨0, 1, 1⟩, ⟨1, 1, 2⟩] : List (Bin ℝ)),
+      (0:ℝ) ≤ s.l ∧ s.r ≤ ([0, 1, 2] : List ℝ).getLast (List.cons_ne_nil _ _)) ∧
+    ((0:ℝ) ≤ 0 ∧ ([0, 1, 2] : List ℝ).getLast (List.cons_ne_nil _ _) ≤ ([0, 3] : List ℝ).getLast (List.cons_ne_nil _ _)) := by
+  refine ⟨by simp, by simp, ?_, ?_, ?_, ?_, ?_⟩
+  · unfold SMono SMono SMono; norm_num
+  · unfold Mono Mono; norm_num
+  · intro s hs; simp at hs; rcases hs with rfl | rfl <;> norm_num
+  · intro s hs; simp at hs; rcases hs with rfl | rfl <;> norm_num
+  · norm_num
+
+/-- Generic composition step (used for both sufficient conditions below): if for every source class and every class `q`
+of C the shares compose - Σ over the classes `p` of B of (share of the source class in `p`) × (share of `p` in `q`) is the
+share of the source class in `q` - then A→B→C = A→C.  Source classes of positive width (a point mass cannot be spread
+linearly, so the linear composition law does not apply to it); B strictly increasing. -/
+theorem rebin_compose_of_kap (src : List (Bin ℝ)) (b0 : ℝ) (brest : List ℝ) (cbreaks : List ℝ)
+    (hb : SMono (b0 :: brest)) (hpos : ∀ s ∈ src, s.l < s.r)
+    (hk : ∀ s ∈ src, ∀ q ∈ pairs cbreaks,
+      ((pairs (b0 :: brest)).map fun p => kap p.1 p.2 s.l s.r * kap q.1 q.2 p.1 p.2).sum = kap q.1 q.2 s.l s.r) :
+    rebin (rebinBins src (b0 :: brest)) cbreaks = rebin src cbreaks := by
+  rw [rebin_eq_rebinS _ _ (rebinBins_pos src _ hb), rebinBins_eq_rebinBinsS src _ hpos, rebin_eq_rebinS src _ hpos]
+  exact rebinS_compose_of_kap src (b0 :: brest) cbreaks hk
+
+/-- non-vacuity: the source (0,2] through B = (0,1],(1,2] to C = (0,2]: 1/2·1 + 1/2·1 = 1. -/
+example : SMono ([0, 1, 2] : List ℝ) ∧ (∀ s ∈ ([⟨0, 2, 7⟩] : List (Bin ℝ)), s.l < s.r) ∧
+    ∀ s ∈ ([⟨0, 2, 7⟩] : List (Bin ℝ)), ∀ q ∈ pairs ([0, 2] : List ℝ),
+      ((pairs ([0, 1, 2] : List ℝ)).map fun p => kap p.1 p.2 s.l s.r * kap q.1 q.2 p.1 p.2).sum = kap q.1 q.2 s.l s.r := by
+  refine ⟨?_, ?_, ?_⟩
+  · unfold SMono SMono SMono; norm_num
+  · intro s hs; simp at hs; subst hs; norm_num
+  · intro s hs q hq
+    simp at hs; subst hs
+    simp [pairs] at hq; subst hq
+    simp [pairs, kap]
+    norm_num
 
 /-- Composition: A→B→C = A→C whenever B covers A and refines it (no class of B straddles an end point of a class of A);
 C is any gap-free binning. -/
@@ -288,29 +374,13 @@ theorem rebin_compose_of_refines (src : List (Bin ℝ)) (b0 : ℝ) (brest : List
     (hcovB : ∀ s ∈ src, b0 ≤ s.l ∧ s.r ≤ (b0 :: brest).getLast (List.cons_ne_nil _ _))
     (href : ∀ s ∈ src, RefinesClass s.l s.r (b0 :: brest)) :
     rebin (rebinBins src (b0 :: brest)) cbreaks = rebin src cbreaks := by
-  unfold rebin
-  apply List.map_congr_left
-  intro q hq
+  apply rebin_compose_of_kap src b0 brest cbreaks hb hpos
+  intro s hs q hq
   have hq12 : q.1 ≤ q.2 := by
     cases cbreaks with
     | nil => simp [pairs] at hq
     | cons c0 crest => exact (pairs_bounds c0 crest hc q hq).2.1
-  unfold aggregate rebinBins
-  simp only [total_eq_sum, List.map_map, share_fun, Function.comp_def, aggregate]
-  have h1 : ((pairs (b0 :: brest)).map fun p => (src.map fun s => s.v * kap p.1 p.2 s.l s.r).sum * kap q.1 q.2 p.1 p.2) =
-      (pairs (b0 :: brest)).map fun p => (src.map fun s => s.v * (kap p.1 p.2 s.l s.r * kap q.1 q.2 p.1 p.2)).sum := by
-    apply List.map_congr_left
-    intro p _
-    rw [← List.sum_map_mul_right]
-    congr 1
-    apply List.map_congr_left
-    intro s _; ring
-  rw [h1, sum_map_sum_comm]
-  congr 1
-  apply List.map_congr_left
-  intro s hs
-  rw [List.sum_map_mul_left,
-    kap_compose s.l s.r q.1 q.2 b0 brest hb (hpos s hs) hq12 (hcovB s hs).1 (hcovB s hs).2 (href s hs)]
+  exact kap_compose s.l s.r q.1 q.2 b0 brest hb (hpos s hs) hq12 (hcovB s hs).1 (hcovB s hs).2 (href s hs)
 
 example : RefinesClass 0 2 ([0, 1, 2, 3] : List ℝ) ∧ SMono ([0, 1, 2, 3] : List ℝ) := by
   constructor
@@ -341,18 +411,62 @@ example : SMono ([0, 1, 2] : List ℝ) ∧ SMono ([0, 0.5, 1, 2, 3] : List ℝ) 
   · unfold SMono SMono SMono SMono SMono; norm_num
   · intro x hx; simp at hx ⊢; rcases hx with rfl | rfl | rfl <;> simp
 
+/-- Composition, second sufficient condition: A→B→C = A→C whenever the last binning C coarsens the middle one
+(every break of C is a break of B).  B need not cover A: what B cuts off, C - whose range lies inside B's - cuts off as well.
+Source classes of positive width. -/
+theorem rebin_compose_of_target_coarsens (src : List (Bin ℝ)) (b0 : ℝ) (brest : List ℝ) (cbreaks : List ℝ)
+    (hb : SMono (b0 :: brest)) (hc : Mono cbreaks) (hpos : ∀ s ∈ src, s.l < s.r)
+    (hsub : ∀ x ∈ cbreaks, x ∈ b0 :: brest) :
+    rebin (rebinBins src (b0 :: brest)) cbreaks = rebin src cbreaks := by
+  apply rebin_compose_of_kap src b0 brest cbreaks hb hpos
+  intro s hs q hq
+  have hq12 : q.1 ≤ q.2 := by
+    cases cbreaks with
+    | nil => simp [pairs] at hq
+    | cons c0 crest => exact (pairs_bounds c0 crest hc q hq).2.1
+  obtain ⟨h1, h2⟩ := pairs_mem_of_mem cbreaks q hq
+  exact kap_compose_coarsen s.l s.r q.1 q.2 b0 brest hb (hpos s hs) hq12 (hsub _ h1) (hsub _ h2)
+
+/-- non-vacuity: A = (1/2, 5/2], B = [0,1,2,3] does not refine A, C = [0,2,3] is a sub-list of B's breaks. -/
+example : SMono ([0, 1, 2, 3] : List ℝ) ∧ Mono ([0, 2, 3] : List ℝ) ∧
+    (∀ s ∈ ([⟨1/2, 5/2, 8⟩] : List (Bin ℝ)), s.l < s.r) ∧ ∀ x ∈ ([0, 2, 3] : List ℝ), x ∈ ([0, 1, 2, 3] : List ℝ) := by
+  refine ⟨by unfold SMono SMono SMono SMono; norm_num, by unfold Mono Mono Mono; norm_num, ?_, ?_⟩
+  · intro s hs; simp at hs; subst hs; norm_num
+  · intro x hx; simp at hx ⊢; rcases hx with rfl | rfl | rfl <;> simp
+
+/-- `rebin_histogram(src, n)` with an integer class count `n ≥ 1`: the binning `linspace(min left, max right, n + 1)` is
+gap-free and covers every source class, so the total is conserved (zero-width source classes included). -/
+theorem rebinN_conserves_total (src : List (Bin ℝ)) (n : Nat) (hn : 0 < n) (hne : src ≠ [])
+    (hval : ∀ s ∈ src, s.l ≤ s.r) :
+    total (rebinN src n) = binTotal src := by
+  obtain ⟨b0, rest, hb, hrest, hm, hcov⟩ := rebinN_breaks_spec src n hn hval hne
+  unfold rebinN
+  rw [hb]
+  exact rebin_conserves_total src b0 rest hrest hm hval hcov
+
+example : (0 : Nat) < 2 ∧ ([⟨0, 1, 1⟩, ⟨1, 1, 2⟩] : List (Bin ℝ)) ≠ [] ∧
+    ∀ s ∈ ([⟨0, 1, 1⟩, ⟨1, 1, 2⟩] : List (Bin ℝ)), s.l ≤ s.r := by
+  refine ⟨by decide, by simp, ?_⟩
+  intro s hs; simp at hs; rcases hs with rfl | rfl <;> norm_num
+
 /-! ## 4b. Re-binning a two-level histogram (MultiIndex of two interval levels) -/
 
-/-- Each target cell receives from each source cell its content times the product of the per-level shares. -/
-theorem rebin2d_cell_is_product (pl pr ql qr : ℝ) (c : Cell ℝ) :
-    share2 pl pr ql qr c = c.v * (kap pl pr c.xl c.xr * kap ql qr c.yl c.yr) :=
-  share2_eq pl pr ql qr c
+/-- Each target cell `p × q` receives from each source cell its content times the product of the per-level shares
+(`kapC`: the linear share of a level of positive width, all-or-nothing by numpy's bin rule for a level of zero width). -/
+theorem rebin2d_cell_is_product (p q : ℝ × ℝ × Bool) (c : Cell ℝ) :
+    share2 p q c = c.v * (kapC p c.xl c.xr * kapC q c.yl c.yr) :=
+  share2_eq p q c
 
-/-- Two-level re-bin to gap-free binnings that cover every source cell on both levels conserves the total
-(source cells of positive width on both levels). -/
-theorem rebin2d_conserves_total (cells : List (Cell ℝ)) (x0 y0 : ℝ) (xr yr : List ℝ)
+example : share2 (0, 1, true) (0, 4, false) (⟨0, 2, 3, 3, 8⟩ : Cell ℝ) = 4 := by
+  rw [rebin2d_cell_is_product]
+  simp [kapC, kap, inBin]
+  norm_num
+
+/-- Two-level re-bin to gap-free binnings (n ≥ 1 classes each) that cover every source cell on both levels conserves
+the total - cells of zero width on either level included.  Guard `xl ≤ xr`, `yl ≤ yr`: pandas rejects inverted intervals. -/
+theorem rebin2d_conserves_total (cells : List (Cell ℝ)) (x0 y0 : ℝ) (xr yr : List ℝ) (hxne : xr ≠ []) (hyne : yr ≠ [])
     (hmx : Mono (x0 :: xr)) (hmy : Mono (y0 :: yr))
-    (hpos : ∀ c ∈ cells, c.xl < c.xr ∧ c.yl < c.yr)
+    (hval : ∀ c ∈ cells, c.xl ≤ c.xr ∧ c.yl ≤ c.yr)
     (hcovx : ∀ c ∈ cells, x0 ≤ c.xl ∧ c.xr ≤ (x0 :: xr).getLast (List.cons_ne_nil _ _))
     (hcovy : ∀ c ∈ cells, y0 ≤ c.yl ∧ c.yr ≤ (y0 :: yr).getLast (List.cons_ne_nil _ _)) :
     total ((rebin2 cells (x0 :: xr) (y0 :: yr)).map total) = (cells.map (·.v)).sum := by
@@ -360,13 +474,14 @@ theorem rebin2d_conserves_total (cells : List (Cell ℝ)) (x0 y0 : ℝ) (xr yr :
   congr 1
   apply List.map_congr_left
   intro c hc
-  rw [kap_sum c.xl c.xr x0 xr hmx (hpos c hc).1 (hcovx c hc).1 (hcovx c hc).2,
-    kap_sum c.yl c.yr y0 yr hmy (hpos c hc).2 (hcovy c hc).1 (hcovy c hc).2]
+  rw [kapC_sum c.xl c.xr x0 xr hxne hmx (hval c hc).1 (hcovx c hc).1 (hcovx c hc).2,
+    kapC_sum c.yl c.yr y0 yr hyne hmy (hval c hc).2 (hcovy c hc).1 (hcovy c hc).2]
   ring
 
-example : Mono ([0, 0.25, 1] : List ℝ) ∧ Mono ([0, 4, 10, 12] : List ℝ) ∧
-    ∀ c ∈ ([⟨0, 0.5, 0, 5, 1⟩, ⟨0.5, 1, 5, 10, 4⟩] : List (Cell ℝ)), c.xl < c.xr ∧ c.yl < c.yr := by
-  refine ⟨by unfold Mono Mono Mono; norm_num, by unfold Mono Mono Mono Mono; norm_num, ?_⟩
+example : ([0.25, 1] : List ℝ) ≠ [] ∧ ([4, 10, 12] : List ℝ) ≠ [] ∧
+    Mono ([0, 0.25, 1] : List ℝ) ∧ Mono ([0, 4, 10, 12] : List ℝ) ∧
+    ∀ c ∈ ([⟨0, 0.5, 0, 5, 1⟩, ⟨0.5, 1, 5, 5, 4⟩] : List (Cell ℝ)), c.xl ≤ c.xr ∧ c.yl ≤ c.yr := by
+  refine ⟨by simp, by simp, by unfold Mono Mono Mono; norm_num, by unfold Mono Mono Mono Mono; norm_num, ?_⟩
   intro c hc; simp at hc; rcases hc with rfl | rfl <;> norm_num
 
 /-- The target binning of a level is found by the level's name: listing the target's levels in the
@@ -401,30 +516,42 @@ example : binTotal (combine ([[⟨0, 1, 5⟩, ⟨1, 2, 10⟩], [⟨1, 2, 12⟩, 
 
 /-! ## 6. Unoccupied classes (NaN contents, `nan_default=True`) -/
 
-/-- `nan_default=True` marks exactly the target classes that no occupied source class overlaps. -/
-theorem rebin_nan_default_marks_unoccupied (src : List (OBin ℝ)) (tl tr : ℝ) :
-    aggregateOpt true src tl tr = none ↔ (present src).filter (overlapsB tl tr) = [] := by
+/-- `nan_default=True` marks exactly the target classes that no occupied source class occupies (a class of positive
+width occupies the target classes it overlaps, a class of zero width the one that holds its point). -/
+theorem rebin_nan_default_marks_unoccupied (src : List (OBin ℝ)) (c : ℝ × ℝ × Bool) :
+    aggregateOpt true src c = none ↔ (present src).filter (occupies c) = [] := by
   unfold aggregateOpt
   constructor
   · intro h
-    by_cases he : ((present src).filter (overlapsB tl tr)).isEmpty = true
+    by_cases he : ((present src).filter (occupies c)).isEmpty = true
     · exact List.isEmpty_iff.mp he
     · simp [he] at h
   · intro h
     simp [h]
 
+example : aggregateOpt true ([⟨0, 1, some 10⟩, ⟨1, 2, none⟩, ⟨3, 3, some 5⟩] : List (OBin ℝ)) (1, 2, false) = none ∧
+    aggregateOpt true ([⟨0, 1, some 10⟩, ⟨1, 2, none⟩, ⟨3, 3, some 5⟩] : List (OBin ℝ)) (2, 3, true) ≠ none := by
+  constructor
+  · rw [rebin_nan_default_marks_unoccupied]
+    simp [present, occupies, overlapsB, inBin, List.filter_cons]
+    norm_num
+  · rw [Ne, rebin_nan_default_marks_unoccupied]
+    simp [present, occupies, overlapsB, inBin, List.filter_cons]
+    norm_num
+
 /-- Re-binning with `nan_default` (True or False) conserves the total, NaN counted as nothing: for a gap-free
-target that covers every occupied source class (occupied classes of positive width). -/
-theorem rebin_nan_default_conserves_total (nd : Bool) (src : List (OBin ℝ)) (b0 : ℝ) (rest : List ℝ)
-    (hm : Mono (b0 :: rest)) (hpos : ∀ s ∈ present src, s.l < s.r)
+target (n ≥ 1 classes) that covers every occupied source class (occupied classes of zero width included). -/
+theorem rebin_nan_default_conserves_total (nd : Bool) (src : List (OBin ℝ)) (b0 : ℝ) (rest : List ℝ) (hne : rest ≠ [])
+    (hm : Mono (b0 :: rest)) (hval : ∀ s ∈ present src, s.l ≤ s.r)
     (hcov : ∀ s ∈ present src, b0 ≤ s.l ∧ s.r ≤ (b0 :: rest).getLast (List.cons_ne_nil _ _)) :
     ototal (rebinOpt nd src (b0 :: rest)) = binTotal (present src) := by
   unfold ototal
   simp only [lit_zero]
   rw [rebinOpt_getD]
-  exact rebin_conserves_total (present src) b0 rest hm hpos hcov
+  exact rebin_conserves_total (present src) b0 rest hne hm hval hcov
 
-example : present ([⟨0, 1, some 10⟩, ⟨1, 2, none⟩, ⟨2, 4, some 5⟩] : List (OBin ℝ)) = [⟨0, 1, 10⟩, ⟨2, 4, 5⟩] := by
+example : present ([⟨0, 1, some 10⟩, ⟨1, 2, none⟩, ⟨2, 4, some 5⟩, ⟨4, 4, some 1⟩] : List (OBin ℝ)) =
+    [⟨0, 1, 10⟩, ⟨2, 4, 5⟩, ⟨4, 4, 1⟩] := by
   simp [present]
 
 /-- Combining by sum with unoccupied classes: the grand total is the sum of the totals of the parts, NaN counted as
@@ -438,10 +565,13 @@ theorem combine_sum_conserves_optional (hists : List (List (OBin ℝ))) :
   intro h _
   exact binTotal_getD h
 
+example : binTotal (combineOpt ([[⟨0, 1, some 5⟩, ⟨1, 2, none⟩], [⟨1, 2, some 12⟩, ⟨2, 3, none⟩]] : List (List (OBin ℝ)))) = 17 := by
+  rw [combine_sum_conserves_optional]; simp [present, binTotal, total]; norm_num
+
 /-- The pipeline of the docstring - every histogram re-binned (`nan_default` either way) to one common gap-free
 binning that covers it, then combined by sum - conserves the grand total of the occupied classes. -/
-theorem rebin_then_combine_conserves (nd : Bool) (hists : List (List (OBin ℝ))) (b0 : ℝ) (rest : List ℝ)
-    (hm : Mono (b0 :: rest)) (hpos : ∀ h ∈ hists, ∀ s ∈ present h, s.l < s.r)
+theorem rebin_then_combine_conserves (nd : Bool) (hists : List (List (OBin ℝ))) (b0 : ℝ) (rest : List ℝ) (hne : rest ≠ [])
+    (hm : Mono (b0 :: rest)) (hval : ∀ h ∈ hists, ∀ s ∈ present h, s.l ≤ s.r)
     (hcov : ∀ h ∈ hists, ∀ s ∈ present h, b0 ≤ s.l ∧ s.r ≤ (b0 :: rest).getLast (List.cons_ne_nil _ _)) :
     binTotal (rebinCombine nd hists (b0 :: rest)) = (hists.map fun h => binTotal (present h)).sum := by
   unfold rebinCombine
@@ -450,8 +580,56 @@ theorem rebin_then_combine_conserves (nd : Bool) (hists : List (List (OBin ℝ))
   apply List.map_congr_left
   intro h hh
   simp only [Function.comp]
-  rw [binTotal_present, ← rebin_nan_default_conserves_total nd h b0 rest hm (hpos h hh) (hcov h hh)]
+  rw [binTotal_present, ← rebin_nan_default_conserves_total nd h b0 rest hne hm (hval h hh) (hcov h hh)]
   unfold ototal rebinOptBins rebinOpt
   simp [total_eq_sum, Function.comp_def]
+
+example : ([2, 4] : List ℝ) ≠ [] ∧ Mono ([0, 2, 4] : List ℝ) ∧
+    ∀ h ∈ ([[⟨0, 1, some 5⟩, ⟨1, 1, some 2⟩], [⟨1, 2, none⟩, ⟨2, 4, some 3⟩]] : List (List (OBin ℝ))),
+      ∀ s ∈ present h, s.l ≤ s.r ∧ (0:ℝ) ≤ s.l ∧ s.r ≤ ([0, 2, 4] : List ℝ).getLast (List.cons_ne_nil _ _) := by
+  refine ⟨by simp, by unfold Mono Mono Mono; norm_num, ?_⟩
+  intro h hh
+  simp at hh
+  rcases hh with rfl | rfl <;> (intro s hs; simp [present] at hs)
+  · rcases hs with rfl | rfl <;> norm_num
+  · subst hs; norm_num
+
+/-! ## 7. From collectives to one combined histogram -/
+
+/-- The documented pipeline collective → `range_histogram(edges)` → re-bin to one common binning → combine by sum:
+the grand total is the sum of the range-histogram totals, i.e. (by `histogram_partition`) the number of cycles inside
+the covered range of each collective's own edges.  The edges of a collective may repeat (numpy accepts weakly
+increasing edges; the zero-width classes this produces are kept by the re-bin); the common binning is gap-free with
+n ≥ 1 classes and covers every collective's edges. -/
+theorem hist_rebin_combine_conserves (parts : List (List ℝ × List (Row ℝ))) (b0 : ℝ) (rest : List ℝ) (hne : rest ≠ [])
+    (hm : Mono (b0 :: rest))
+    (hparts : ∀ p ∈ parts, ∃ e0 er, p.1 = e0 :: er ∧ er ≠ [] ∧ Mono (e0 :: er) ∧ b0 ≤ e0 ∧
+        (e0 :: er).getLast (List.cons_ne_nil _ _) ≤ (b0 :: rest).getLast (List.cons_ne_nil _ _)) :
+    binTotal (histRebinCombine parts (b0 :: rest)) = (parts.map fun p => total (rangeHistogram p.1 p.2)).sum := by
+  unfold histRebinCombine
+  rw [combine_sum_conserves, List.map_map]
+  congr 1
+  apply List.map_congr_left
+  intro p hp
+  obtain ⟨e0, er, he, _, hme, hlo, hhi⟩ := hparts p hp
+  simp only [Function.comp]
+  rw [binTotal_rebinBins, he, rebin_conserves_total _ b0 rest hne hm]
+  · exact binTotal_binsOf _ _ (hist_length _ _)
+  · intro s hs
+    exact (binsOf_bounds e0 er _ hme s hs).2.1
+  · intro s hs
+    obtain ⟨h1, _, h3⟩ := binsOf_bounds e0 er _ hme s hs
+    exact ⟨le_trans hlo h1, le_trans h3 hhi⟩
+
+example : ([2, 4] : List ℝ) ≠ [] ∧ Mono ([0, 2, 4] : List ℝ) ∧
+    ∀ p ∈ ([([0, 1, 1], [⟨0, 1, 1⟩, ⟨0, 0.5, 2⟩]), ([1, 2, 4], [⟨-1, 1, 3⟩])] : List (List ℝ × List (Row ℝ))),
+      ∃ e0 er, p.1 = e0 :: er ∧ er ≠ [] ∧ Mono (e0 :: er) ∧ (0:ℝ) ≤ e0 ∧
+        (e0 :: er).getLast (List.cons_ne_nil _ _) ≤ ([0, 2, 4] : List ℝ).getLast (List.cons_ne_nil _ _) := by
+  refine ⟨by simp, by unfold Mono Mono Mono; norm_num, ?_⟩
+  intro p hp
+  simp at hp
+  rcases hp with rfl | rfl
+  · exact ⟨0, [1, 1], rfl, by simp, by unfold Mono Mono Mono; norm_num, by norm_num, by norm_num⟩
+  · exact ⟨1, [2, 4], rfl, by simp, by unfold Mono Mono Mono; norm_num, by norm_num, by norm_num⟩
 
 end PylifeVerif.C14
